@@ -72,7 +72,9 @@ func (ts *TemplateOp) Do(ctx ActionContext) error {
 		if err = yaml.Unmarshal([]byte(val), &yn); err != nil {
 			return err
 		}
-		node = dom.YamlNodeDecoder()(&yn)
+		if node = dom.YamlNodeDecoder()(&yn); node == nil {
+			node = dom.LeafNode(nil)
+		}
 	case ParseTextAsNone:
 		node = dom.LeafNode(val)
 	default:
